@@ -3,6 +3,7 @@
 package verifharness_test
 
 import (
+	"sort"
 	"fmt"
 	"math/rand/v2"
 	"strconv"
@@ -69,6 +70,24 @@ type c16Env struct {
 	mw         *cors.Middleware
 	origins    []string
 	failStatus map[int]int // status -> count, over all failing preflights of this configuration
+	// header names and values (status included) of the first failing preflight served behind the pre-set Vary layer
+	failDigest, failDigestReq string
+}
+
+var c16PresetVary = []string{"Accept-Encoding"}
+
+func headerDigest(o Obs) string {
+	keys := make([]string, 0, len(o.Headers))
+	for k := range o.Headers {
+		keys = append(keys, k)
+	}
+	sort.Strings(keys)
+	var sb strings.Builder
+	sb.WriteString(strconv.Itoa(o.Status))
+	for _, k := range keys {
+		sb.WriteString(" | " + k + ": " + strings.Join(o.Headers[k], " ## "))
+	}
+	return sb.String()
 }
 
 func c16RunCase(r *Run, l *Local, e *c16Env, q Req) {
@@ -106,6 +125,23 @@ func c16RunCase(r *Run, l *Local, e *c16Env, q Req) {
 		report("canary-leak", "response body discloses a configured value")
 	}
 	success := o.ok2xx() && len(o.get(hACAO)) > 0
+	// preflights that the configuration certainly does not permit (judged from the request and the specification, not
+	// from the response): a single Access-Control-Request-Method that is a token, is not byte-exactly GET / HEAD / POST and
+	// is not configured; or a single Origin that not even the lenient recogniser accepts. They must look like every
+	// other failure (lesson of seeded change C16-md: a step that "passes" without granting anything)
+	if isPreflightReq(q) && success {
+		why := ""
+		if v := q.Header[hACRM]; len(v) == 1 && isToken(v[0]) && v[0] != "GET" && v[0] != "HEAD" && v[0] != "POST" && !e.sem.AnyMethod && !e.sem.Methods[v[0]] {
+			why = fmt.Sprintf("method %q is neither CORS-safelisted (byte-exact) nor configured", v[0])
+		}
+		if v := q.Header[hOrigin]; why == "" && len(v) == 1 && !e.sem.AllowAll && !e.sem.originAllowedRaw(v[0]) {
+			why = fmt.Sprintf("origin %q is not allowed", truncate(v[0], 100))
+		}
+		if why != "" {
+			report("unpermitted-preflight-looks-successful", "a preflight the configuration does not permit ("+why+") is answered with an ok status and Access-Control-Allow-Origin instead of like every other failing preflight")
+			return
+		}
+	}
 	if !success {
 		l.n2++
 		for k, v := range o.Headers {
@@ -123,6 +159,22 @@ func c16RunCase(r *Run, l *Local, e *c16Env, q Req) {
 		}
 		if o.Body != "" || o.Calls != 0 {
 			report("failure-body", "failed preflight has a body or reached the handler")
+		}
+		// the same request behind an outer layer that pre-set Vary: every failing preflight of the configuration must
+		// carry the SAME header set, whichever step failed (lesson of seeded change C16-mc: a failure path that loses the
+		// middleware's Vary names)
+		if isPreflightReq(q) {
+			op := serveWithPreset(e.mw, c16PresetVary, q)
+			l.evals++
+			if !op.ok2xx() || len(op.get(hACAO)) == 0 {
+				d := headerDigest(op)
+				if e.failDigest == "" {
+					e.failDigest, e.failDigestReq = d, reqString(q)
+				} else if d != e.failDigest {
+					report("failure-headers-depend-on-reason", fmt.Sprintf("behind an outer layer that set Vary: %q, failed preflights of this configuration carry different header sets: %s (for %s) vs %s (this request)", c16PresetVary, e.failDigest, e.failDigestReq, d))
+					e.failDigest = ""
+				}
+			}
 		}
 		return
 	}
@@ -161,7 +213,7 @@ func c16RunCase(r *Run, l *Local, e *c16Env, q Req) {
 func TestVerif_C16(t *testing.T) {
 	r := newRun(t, "C16")
 	r.Rule("C02 configuration product and PRNG origin-rich configurations, each with a canary token added to every discrete allow-list (origins, methods, request headers, exposed headers), debug off, x preflights: succeeding, failing at the origin / PNA / method / header step, and hostile Origin/ACRM/ACRH/ACRPN values (see C03). " +
-		"evaluation = one preflight exchange; oracle: failure => no Access-Control-* header, non-ok status identical for all failures of the configuration, empty body; success => every token of every Access-Control-* value is `*`, `true`, the configured max-age or supplied by the request (`authorization` in the `*,authorization` case); no canary anywhere. " +
+		"evaluation = one preflight exchange; oracle: failure => no Access-Control-* header, non-ok status identical for all failures of the configuration, empty body, and - behind an outer layer that pre-set Vary - one and the same header set for all failures; a preflight the configuration certainly does not permit (unconfigured non-safelisted method token, origin no recogniser accepts) must be among the failures; success => every token of every Access-Control-* value is `*`, `true`, the configured max-age or supplied by the request (`authorization` in the `*,authorization` case); no canary anywhere. " +
 		"non-trivial = preflight from an allowed origin (so that the method/header/PNA steps and the success path are reached), distinct by hash")
 	r.Assume("success of a preflight is read off the response itself (ok status and Access-Control-Allow-Origin present)")
 
